@@ -268,13 +268,14 @@ deriving Repr
 def mkEnt (v : Nat) (e : String × Option Int) (k : Nat) : RegEnt := ⟨e.1, e.2, codecOfIdx e.1 v k⟩
 
 def mkRow (tab : C05D.IdxTable) (r : IdRow) (x : Nat × Nat) : RegRow :=
-  ⟨r.1, r.2.1, List.zipWith (mkEnt r.1) r.2.2 ((tab.shapes[x.2]?).getD [])⟩
+  ⟨r.1, r.2.1, List.zipWith (mkEnt r.1) r.2.2 (((tab.shapes[x.2]?).getD []).map (·.2))⟩
 
 def mkTable (t : String × List IdRow) (x : String × C05D.IdxTable) : String × List RegRow :=
   (t.1, List.zipWith (mkRow x.2) t.2 x.2.rows)
 
 /-- the 8 state/direction tables × every known protocol version: the id table and the codec-index
-table of the generators, zipped (they list the classes of a row in the same order) -/
+table of the generators, zipped (they list the classes of a row in the same order: the class names of
+both are compared by `Dsp.alignOK`, `Lemmas/C05DispatchReg.lean`) -/
 def regTable : List (String × List RegRow) := List.zipWith mkTable idTables C05D.codecIdx
 
 /-- the id-table view of a row -/
